@@ -966,7 +966,7 @@ class Scenario(object):
 
 
 def scenario(ctx, cls, name, npos, sources, em, init_mode="default",
-             probe_after=(1,), hosts_i=0, ambient=0):
+             probe_after=(1,), hosts_i=0, ambient=0, dflt=False):
     """sources: {argument: (None | 'kw' | 'pos', levels)}; ambient: level of
     a block that also sets the contextual arguments the method does NOT
     take (they must not matter), 0: none."""
@@ -976,6 +976,11 @@ def scenario(ctx, cls, name, npos, sources, em, init_mode="default",
         E, C = sources[a]
         if E:
             explicit[a] = sym(ctx, a, "arg")
+            if dflt and pl.default[a] is not REQ and \
+                    pl.default[a] is not None:
+                # the caller names the very value the signature defaults to
+                explicit[a] = pl.default[a]
+                ctx.witness("explicit-default")
         for lv in C:
             levels[lv][a] = sym(ctx, a, "c%d" % lv)
     if ambient:
@@ -1023,6 +1028,28 @@ def h_wiring(ctx, cls, names, strides=(4,)):
              probe_after=(1,) if cls == MC else (),
              ambient=(0, 1, 0, 3, 0, 2)[r % 6],
              init_mode=("default", "empty", "default", "sym")[r % 4])
+
+
+@stoppable
+def h_explicit_default(ctx, cls, names):
+    """An argument given explicitly with the very value (the same object)
+    its signature defaults to is still an explicit argument: the enclosing
+    blocks, which set it to something else, must not win."""
+    name = ctx.pick(names)
+    pl = plan(cls, name)
+    if not any(pl.default[a] is not REQ and pl.default[a] is not None
+               for a in pl.cargs):
+        ctx.observe("no defaulted contextual argument")
+        return
+    npos = ctx.pick(pl.npos)
+    C = ctx.pick(((1,), (1, 2, 3)))
+    sources = {}
+    for a in pl.cargs:
+        E = "pos" if (pl.index[a] is not None and
+                      pl.index[a] < npos) else "kw"
+        sources[a] = (E, C)
+    scenario(ctx, cls, name, npos, sources, 0, probe_after=(),
+             dflt=True)
 
 
 def _free_sources(ctx, pl, free, npos, explicit_ways):
@@ -1494,6 +1521,10 @@ def h_reentry(ctx, cls, name, sets, app):
 
 
 # ----------------------------------------------------------------------
+def specs_names(cls):
+    return list(specs()[cls])
+
+
 def covered_methods():
     s = specs()
     return sorted(s[MC]), sorted(s[BMP])
@@ -1557,6 +1588,10 @@ def units(tier, seed):
     us.append(Unit("wiring BMPController: %s" % ",".join(bmp_names),
                    h_wiring, dict(cls=BMP, names=bmp_names, strides=strides),
                    split=2, witnesses=W + ("no-connection",)))
+    all_mc = sorted(set(specs_names(MC)))
+    us.append(Unit("explicit value equal to the default", h_explicit_default,
+                   dict(cls=MC, names=all_mc), split=3,
+                   witnesses=("sent", "explicit-default")))
     P = (0, 1, 2, 3)
     SR, SE = ("sent", "rejected"), ("sent", "left-by-exception")
     if quick:
